@@ -5,13 +5,14 @@ use simcommon::scenario::{Cell, ColSpec, ColType, PuEntry, Scenario, TableSpec, 
 use std::collections::{BTreeMap, BTreeSet};
 
 /// For every protected table: per row, the set of unit keys owning it.
-pub type Owners = BTreeMap<String, Vec<BTreeSet<String>>>;
+/// (with multiplicity: a row reached through two parent rows of the same unit is tracked twice)
+pub type Owners = BTreeMap<String, Vec<Vec<String>>>;
 
 fn sql_eq(a: &Cell, b: &Cell) -> bool {
     !a.is_null() && !b.is_null() && a.key() == b.key()
 }
 
-fn owners_of_entry(tables: &[TableSpec], e: &PuEntry) -> Vec<BTreeSet<String>> {
+fn owners_of_entry(tables: &[TableSpec], e: &PuEntry) -> Vec<Vec<String>> {
     let find = |key: &str| tables.iter().find(|t| t.has_key(key));
     let t = match find(&e.table) {
         Some(t) => t,
@@ -49,19 +50,20 @@ fn owners_of_entry(tables: &[TableSpec], e: &PuEntry) -> Vec<BTreeSet<String>> {
             }
             frontier = next;
         }
-        let mut set = BTreeSet::new();
+        let mut set: Vec<String> = vec![];
         if ok {
             for (ft, fr) in &frontier {
                 if e.field == ROW_PRIVACY {
-                    set.insert(format!("row:{}:{}", ft.name, fr));
+                    set.push(format!("row:{}:{}", ft.name, fr));
                 } else if let Some(ci) = ft.col_index(&e.field) {
                     let v = &ft.rows[*fr][ci];
                     if !v.is_null() {
-                        set.insert(v.key());
+                        set.push(v.key());
                     }
                 }
             }
         }
+        set.sort();
         out.push(set);
     }
     out
@@ -116,7 +118,7 @@ pub fn without_unit(sc: &Scenario, own: &Owners, u: &str) -> Vec<TableSpec> {
                     .rows
                     .iter()
                     .enumerate()
-                    .filter(|(i, _)| !(o[*i].len() == 1 && o[*i].contains(u)))
+                    .filter(|(i, _)| !(!o[*i].is_empty() && o[*i].iter().all(|x| x == u)))
                     .map(|(_, r)| r.clone())
                     .collect();
                 TableSpec { rows, ..t.clone() }
